@@ -539,6 +539,35 @@ class CHECK(vlib.Check):
                         ext = struct.pack(">Q", rng.choice([0, 1, 65536, 10 * 1024 * 1024, 10 * 1024 * 1024 + 1, 1 << 31, 1 << 32, (1 << 63) - 1, 1 << 63]))
                     b = bytes([first, mask | ln]) + ext + (b"\x01\x02\x03\x04" if mask else b"") + b
                 add("gw-%s-random" % base, "gw,%s|%s" % (kd, chunks_hex(b, rng.choice(segmentations(rng, len(b))))))
+        # multi-packet conspiracies against the tunnel's reassembly: fragments of ONE message id from one source, contiguous
+        # offsets, each well-formed on its own, whose headers disagree about the total size (smaller first / larger first),
+        # chunk sizes up to what the MTU allows; also id changes in mid-message, gaps, overlaps, several fragments in one packet
+        def frag(mid, off, chunk, total, data=None):
+            data = rand_bytes(rng, chunk) if data is None else data
+            return w32(1114989680) + w32(0) + w32(mid) + w32(off) + w32(chunk) + w32(total) + data
+        for (mtu, spec) in [(64, "ptun,64,100000,0,1"), (1400, "ptun,1400,100000,0,1"), (1400, "ptun,1400,n,1,1"), (1400, "ptun,1400,100000,0,0")]:
+            room = mtu - 24
+            seqs = []
+            for c2 in [1, 8, room // 2, room]:
+                for t2 in [16, 17, 8 + c2, 8 + c2 + 1, 5000, 100000]:
+                    seqs.append([frag(1, 0, 8, 16), frag(1, 8, c2, t2)])                     # small total first, larger later
+                    seqs.append([frag(1, 0, 8, t2), frag(1, 8, min(c2, 8), 16)])              # larger first, smaller later
+            seqs.append([frag(1, 0, 8, 16), frag(1, 8, room, 5000), frag(1, 8 + room, room, 5000)])
+            seqs.append([frag(1, 0, 8, 16), frag(2, 8, room, 5000)])                         # id changes at a non-zero offset
+            seqs.append([frag(1, 0, 8, 16), frag(1, 4, 8, 16), frag(1, 8, 8, 16)])            # overlap, then the expected one
+            seqs.append([frag(1, 0, 8, 16), frag(1, 12, 4, 16)])                             # gap
+            seqs.append([frag(1, 0, 0, 0), frag(1, 0, 8, 8)])
+            seqs.append([frag(1, 0, 8, 16), frag(1, 8, 0xFFFFFFF8, 16, b"")])
+            seqs.append([frag(3, 0, room, room * 3), frag(3, room, room, room * 2), frag(3, 2 * room, room, room * 3)])
+            for sq in (seqs if big else some(seqs, 30) + seqs[-7:]):
+                add("gw-ptun-multi", "gw,%s|%s" % (spec, ";".join(x.hex() for x in sq)))
+                if len(sq[0]) + len(sq[1]) <= mtu:                                            # the same fragments inside one packet
+                    add("gw-ptun-multi", "gw,%s|%s" % (spec, (sq[0] + sq[1]).hex() + "".join(";" + x.hex() for x in sq[2:])))
+        # mini tunnel: several chunks per packet whose sizes disagree with what is left of the packet
+        for spec in ["mptun,1400,0,1", "mptun,64,1,1"]:
+            for sizes in [[4, 0xFFFFFFFF], [0, 0, 1], [8, 9, 2], [0x7FFFFFFF], [12, 12, 0xFFFFFFFC]]:
+                body = b"".join(w32(z) + rand_bytes(rng, min(z, 12)) for z in sizes)
+                add("gw-mptun-multi", "gw,%s|%s" % (spec, (w32(1836345197) + w32(0) + w32(rng.randrange(1 << 24)) + body).hex()))
         # a long unbroken run through the raw gateway in minimum-chunk mode (its receive path recurses once per completed chunk)
         for mn, n in [(1, 64), (1, 3000 if not big else 20000), (4, 4096)]:
             add("gw-raw-long", "gw,raw,%d,n|%s" % (mn, rand_bytes(rng, n).hex()))
